@@ -254,7 +254,12 @@ def one_pair(ctx, t1, t2, ip, cases_model, cases_spec, cases_specs, corr=True):
         return
     if V.canon(a) != sa or V.canon(b) != sb:
         ctx.fail(dict(case, clause="inputs modified"), "DeepDiff modified an input")
-    observed = D.text_obs(res)
+    try:
+        observed = D.text_obs(res)
+    except Exception as e:  # noqa  (e.g. a notpresent placeholder where a value belongs)
+        ctx.fail(dict(case, clause="result differs from the specification", expected=expected, observed="not canonicalisable: " + repr(res)[:400]),
+                 "positional result is malformed (%r): %s" % (e, repr(res)[:300]))
+        return
     ctx.seen((case["t1"], case["t2"], ip), nontrivial=bool(expected))
     for e in expected:
         ctx.count("expected:" + e[0])
